@@ -130,8 +130,16 @@ def handle : Handler := fun op inp impl => do
       let bad := match RV.Oracle.ClosedLoop.traceFirstBad (RV.Oracle.ClosedLoop.Ghost.fresh 0) s0 steps 0 with
         | some (i, g, a, b) => [s!"bad-at:{i}:idx={g.idx},up={g.upgraded},ro={g.routed},pa={g.pauseOK},inv={a},adv={b}"]
         | none => []
-      return { holds := [("C02.loop_gate", ok), ("C06.loop_gate", ok)],
-               tags := ["trace", s!"trace-len:{(labels.length / 50) * 50}+", if njudged == 0 then "trivial" else "trace-judged"] ++ bad }
+      -- C07: a healthy fair run (rounds ro, br, env, approve, tick; crashes allowed) of the REAL controllers finishes
+      -- within 20·(#steps + 4) rounds of its release
+      let fair := match jopt inp "fair" with | some (.bool b) => b | _ => false
+      let healthy := match jopt inp "healthy" with | some (.bool b) => b | _ => false
+      let term ← (match jopt inp "terminalAt" with | some v => jint v | none => pure (-1))
+      let nsteps ← (match jopt inp "steps" with | some v => jnat v | none => pure 0)
+      let termOK := !(fair && healthy) || (decide (0 ≤ term) && decide (term ≤ 20 * ((nsteps : Int) + 4)))
+      return { holds := [("C02.loop_gate", ok), ("C06.loop_gate", ok), ("C07.loop_terminates", termOK), ("C06.loop_terminates", termOK)],
+               tags := ["trace", s!"trace-len:{(labels.length / 50) * 50}+", if njudged == 0 then "trivial" else "trace-judged"] ++ bad ++
+                 (if fair && healthy then ["fair-healthy-run", s!"rounds-per-step:{if nsteps == 0 then 0 else term.toNat / nsteps}"] else if fair then ["fair-run-with-events"] else ["random-schedule"]) }
   | _ => .error s!"closedloop: unknown op {op}"
 
 end RV.Drv.ClosedLoop
